@@ -23,6 +23,8 @@ SPECS = [
     {'conv': 'cf1d', 'ny': 4, 'nx': 3, 'descending_lat': True}, {'conv': 'cf1d', 'ny': 3, 'nx': 4, 'descending_lon': True, 'nonuniform': True},
     # bounds whose grid dimensions are stored the other way round than latitude / longitude (non-square grid)
     {'conv': 'cf2d', 'ny': 3, 'nx': 4, 'bounds': 'vars', 'bounds_transposed': True},
+    # the face-node table stored (max nodes, faces), the Fortran / FVCOM layout, with mixed triangles and quadrilaterals
+    {'conv': 'ugrid', 'ny': 2, 'nx': 3, 'split': [[0, 1]], 'transposed': True}, {'conv': 'ugrid', 'ny': 3, 'nx': 2, 'split': [[1, 1]], 'transposed': True, 'start_index': 1},
 ]
 
 
@@ -37,7 +39,7 @@ def test(inp):
     ems = ds.ems
     with warnings.catch_warnings():
         warnings.simplefilter('ignore')
-        polys = ems.polygons
+        polys = must(lambda: ems.polygons, 'polygons of a valid dataset')
     if spec.get('bounds_transposed'):
         # such bounds do not describe the coordinate's grid: the cells are the ones synthesised from the centres, in the order of the centres
         want = corners_oracle({k: v for k, v in spec.items() if k not in ('bounds', 'bounds_transposed')})
